@@ -70,10 +70,13 @@ structure RawCommit (π : Type) where
   pins : π
   time : Nat
 
+/-- how the model writes the `'?'` that `get_saved_build_number` puts for major and minor when no version file can be
+read: `BuildNumData.cmp` treats everything that is not an int as bigger than every int and as equal to each other, and
+that is how this number behaves as long as the real numbers stay below it (the drivers print it as `?`) -/
+def unknownNum : Nat := 1000000000000000000
+
 /-- the build number of one tag: `none` for a tag that is not a successful-build tag; major.minor from the branch part
-of the tag, else from the saved version; patch = build.  `.error` when the saved version would be needed and there is
-none: the code then carries `'?'` for major and minor, which the model's build numbers cannot express — such inputs
-are outside the model (the driver refuses them). -/
+of the tag, else from the saved version, else unknown (`'?'`); patch = build. -/
 def tagBN (saved : Option (Nat × Nat)) (s : List Char) : Except Unit (Option BN) :=
   match parseBuildTag s with
   | none => .ok none
@@ -83,7 +86,7 @@ def tagBN (saved : Option (Nat × Nat)) (s : List Char) : Except Unit (Option BN
     | none =>
       match saved with
       | some (M, m) => .ok (some ⟨M, m, build, build⟩)
-      | none => .error ()
+      | none => .ok (some ⟨unknownNum, unknownNum, build, build⟩)
 
 def tagBNs (saved : Option (Nat × Nat)) : List (List Char) → Except Unit (List BN)
   | [] => .ok []
